@@ -21,6 +21,16 @@ CLAIMED = {
    note="Specification = global lets uintok/uintval/intval in /repo/verif_contracts.go + DV axioms (base/step instantiated at read indices, stickiness lemma step discharged). ReadInt/ReadUint: 64-bit arm only. Decode forms via C12.",
    tech="contract-based deductive verification: loop invariants against a saturating decimal-value spec function, path VCs over go/ssa, z3/cvc5 raced",
    ref="DESIGN.md section 6 (C05)"),
+ "C06": dict(
+   text="Proof of the grammar/offset half of the property on the real code: ReadStringBytes and ReadString succeed exactly when the first token is a well-formed RFC 8259 string and return the offset just after the closing quote; appendRemainderOfString and unescapeStringContent (generated machines, all states x all bytes, including the 12-byte surrogate-pair jump through unescapeUnicodeChar/getu4, whose contracts state exactly when a \\uXXXX escape is present) are proved against the string states of the master transducer; unescaping the bytes between the quotes of a well-formed token succeeds and consumes all of them; destination contents are preserved (C16).",
+   note="NOT proved: that the produced bytes are the RFC decoding of the content (surrogate combination, U+FFFD, verbatim copy) - the content fold is not built; stated in evidence.proved_subset. utf8/utf16 helpers enter with exact assumed definitions. String machines are proved in the top-level context only.",
+   tech="contract-based deductive verification: simulation of the generated string machines against the specification transducer, loop invariants for the hand-written scanners, z3/cvc5",
+   ref="DESIGN.md section 6 (C06)"),
+ "C07": dict(
+   text="Proof on the real handleArrayValues/handleObjectValues (go/ssa, ~510 cut points, all 256 bytes each) against the traversal entry points of the master transducer, for every handler that returns a nil error only together with 0 or the exact end of the value: (i) every handler call happens at a member start of the traversed container (depth 1) with data[p:] starting at the member's first byte and, for objects, the field argument equal to the bytes between the key's quotes (key registers of the spec); (ii) every member start is a handler call, one per member, positions strictly increase; (iii) after 0 the embedded skip machine validates the member, after an exact end the machine re-reads the closing byte and continues in the after-value state (resync ghost state); (iv) if no handler call failed, the traversal succeeds exactly when the spec accepts (null or a complete container) and returns the spec's end offset.",
+   note="The well-behaved handler contract is the property's hypothesis, stated on the spec run (incl. L-closer: the last byte of a string/array/object value is its closing quote/bracket - argued on the spec, not machine-checked). No depth limit is needed. Slowest check (~15-25 min without hints, a few minutes with the committed invariant hints, which are re-verified on every run).",
+   tech="contract-based deductive verification: simulation with a handler interface contract and ghost resync state, event obligations per handler call site, cut-point VCs over go/ssa, z3/cvc5",
+   ref="DESIGN.md section 6 (C07)"),
  "C09": dict(
    text="Proof for every document, call position and accompanying offset: on every path of the real handleArrayValues/handleObjectValues (go/ssa of /repo's tree) through a handler invoke, a non-nil handler error makes the function return that same SSA value with no further invoke; the wrappers pass it through. Handler results are unconstrained 64-bit / error symbols.",
    note="Trusted: go/ssa translation, rjv's SMT semantics, solver unsat answers, Floyd cut-point argument. Invariants at the ~500 machine cut points are inferred (Houdini) and re-verified from scratch on every run.",
@@ -60,7 +70,7 @@ CLAIMED = {
 
 NOT_BUILT = "in reach per DESIGN.md section 6 but its check is not built yet - not claimed"
 NA = {
- "C03": NOT_BUILT, "C04": NOT_BUILT, "C06": NOT_BUILT, "C07": NOT_BUILT,
+ "C03": NOT_BUILT, "C04": NOT_BUILT,
  "C08": NOT_BUILT, "C11": NOT_BUILT, "C19": NOT_BUILT, "C20": NOT_BUILT,
  "C15": "needs a full functional contract of generic decoding for arbitrary prior reader state (incl. what sync.Pool.Get may return) and ownership of maps/slices reachable through interface values; not expressible in a quantifier-free bit-vector/array VC generator without inductive datatypes or separation logic (DESIGN.md section 6, C15)",
  "C17": "the functional content is utf8.DecodeRune / string([]rune) / string(rune) runtime intrinsics whose semantics would have to be assumed in exactly the form of the property, and the statement is sequence-valued and, for the slice/map helpers, an induction over interface-typed trees; no contract within reach decides it (DESIGN.md section 6, C17)",
